@@ -260,6 +260,18 @@ fam!(row_ser FOIn2 [flavor = "enforce_order", skip_name_checks] { p: i32, q: i32
 fam!(row_ser R29 [flavor = "enforce_order", skip_name_checks] { a: i32, #[scylla(flatten)] inner: FOIn2, z: String });
 fam!(row_ser FOMid [flavor = "enforce_order"] { a: i32, #[scylla(flatten)] i: FOIn1, d: bool });
 fam!(row_ser R30 [flavor = "enforce_order"] { #[scylla(flatten)] m: FOMid, e: f64 });
+// flatten-ONLY structs (no field of their own): 1 and 2 flattened members, nested, both flavors.
+// Their is_empty() must still say "binds values".
+fam!(row_ser R40 [] { #[scylla(flatten)] k: FIn1 });
+fam!(row_ser R41 [] { #[scylla(flatten)] k: FIn1, #[scylla(flatten)] p: FIn3 });
+fam!(row_ser R42 [] { #[scylla(flatten)] outer: R40 });
+fam!(row_ser FIn4 [] { m: bool, #[scylla(rename = "nn")] n: Option<String> });
+fam!(row_ser R43 [] { #[scylla(flatten)] both: R41, #[scylla(flatten)] more: FIn4 });
+fam!(row_ser FOIn3 [flavor = "enforce_order"] { x: i32, y: i32 });
+fam!(row_ser R44 [flavor = "enforce_order"] { #[scylla(flatten)] k: FOIn1 });
+fam!(row_ser R45 [flavor = "enforce_order"] { #[scylla(flatten)] k: FOIn1, #[scylla(flatten)] p: FOIn3 });
+fam!(row_ser R46 [flavor = "enforce_order"] { #[scylla(flatten)] outer: R44 });
+fam!(row_ser R47 [flavor = "enforce_order", skip_name_checks] { #[scylla(flatten)] k: FOIn2 });
 
 pub fn family() -> Vec<Entry> {
     vec![
@@ -353,6 +365,16 @@ pub fn family() -> Vec<Entry> {
         R28::entry(),
         R29::entry(),
         R30::entry(),
+        R40::entry(),
+        R41::entry(),
+        R42::entry(),
+        R43::entry(),
+        FIn4::entry(),
+        FOIn3::entry(),
+        R44::entry(),
+        R45::entry(),
+        R46::entry(),
+        R47::entry(),
         FIn1::entry(),
         FIn2::entry(),
         FIn3::entry(),
